@@ -56,7 +56,8 @@ pub struct NCase {
     /// emulator-only prelude (C19): one instruction per character is stepped before the case's
     /// own step to move the machine's internal bookkeeping (call stack, trace, counters) away
     /// from the freshly constructed state; registers, flags and arena bytes are then reset to the
-    /// case's. 'r' = ret, 'c' = call, 'j' = jmp, 'J' = jmp to itself (consecutive ones collapse).
+    /// case's. 'r' = ret, 'c' = call, 'j' = jmp, 'J' = jmp to itself (consecutive ones collapse),
+    /// 'x' = a decoy (`jmp $`) executed at the case's own RIP before the case's bytes are put there.
     #[serde(default)]
     pub pre: String,
 }
@@ -71,6 +72,13 @@ impl NCase {
 }
 
 pub fn fill(seed: u64, kind: ArenaKind, len: usize) -> Vec<u8> {
+    if kind == ArenaKind::Stack && len == 0x2000 {
+        // the stack arena grew downwards by a page: its upper page keeps the stream it always had
+        // (replay files name a seed, not the bytes)
+        let mut v = fill(seed ^ 0x5eed_10e5, ArenaKind::Stack, 0x1000);
+        v.extend_from_slice(&fill(seed, ArenaKind::Stack, 0x1000));
+        return v;
+    }
     let mut v = vec![0u8; len];
     let mut x = mix64(seed ^ (kind as u64 + 1).wrapping_mul(0x9E37_79B9));
     for ch in v.chunks_mut(8) {
@@ -103,9 +111,11 @@ pub fn arena_images(c: &NCase) -> Vec<(ArenaKind, Vec<u8>)> {
         // the instruction bytes go in last: a data patch that overlaps them must not change which
         // instruction executes (everything that labels the case decodes `code`)
         if d.kind == ArenaKind::Code {
-            for (at, b) in prelude_slots(&c.pre) {
-                let off = (at - d.base) as usize;
-                img[off..off + b.len()].copy_from_slice(&b);
+            for (_, at, b) in prelude_slots(c) {
+                if !b.is_empty() {
+                    let off = (at - d.base) as usize;
+                    img[off..off + b.len()].copy_from_slice(&b);
+                }
             }
             let code = c.code_bytes();
             let off = c.rip.wrapping_sub(d.base) as usize;
@@ -151,13 +161,21 @@ pub fn build_ax(c: &NCase, images: &[(ArenaKind, Vec<u8>)]) -> Result<Axecutor, 
     Ok(ax)
 }
 
-/// Prelude instructions (see `NCase::pre`) as (address, bytes), one 16-byte slot each from
-/// CODE_BASE+0x810; consecutive 'J's share a slot so the same jump repeats.
-pub fn prelude_slots(pre: &str) -> Vec<(u64, Vec<u8>)> {
-    let base = crate::native::CODE_BASE + 0x800;
+/// Prelude instructions (see `NCase::pre`) as (kind, address, bytes), one 16-byte slot each from
+/// CODE_BASE+0xc10 (or +0x210 when the case's instruction lies in the upper half of the arena); consecutive 'J's share a slot so the same jump repeats. 'x' has no slot of its
+/// own (it runs a decoy at the case's own RIP).
+pub fn prelude_slots(c: &NCase) -> Vec<(char, u64, Vec<u8>)> {
+    let pre = &c.pre;
+    // well away from the case's own instruction
+    let base = crate::native::CODE_BASE + if c.rip < crate::native::CODE_BASE + 0x800 { 0xc00 } else { 0x200 };
     let (mut slot, mut prev) = (0u64, ' ');
     let mut out = vec![];
     for ch in pre.chars() {
+        if ch == 'x' {
+            out.push((ch, 0, vec![]));
+            prev = ch;
+            continue;
+        }
         if !(ch == 'J' && prev == 'J') {
             slot += 1;
         }
@@ -168,24 +186,57 @@ pub fn prelude_slots(pre: &str) -> Vec<(u64, Vec<u8>)> {
             'j' => vec![0xeb, 14],
             _ => vec![0xeb, 0xfe],
         };
-        out.push((base + slot * 16, bytes));
+        out.push((ch, base + slot * 16, bytes));
     }
     out
 }
 
 /// See `NCase::pre`. The prelude's bytes are part of the code image (`arena_images`). Errors of
 /// prelude steps are ignored (the state they leave is still a state a user can step from);
-/// panics propagate to the caller's catch.
+/// panics propagate to the caller's catch. 'x': other bytes (`jmp $`) are placed at the case's own
+/// RIP, executed once, and replaced by the case's bytes again — a fetch must see the bytes that
+/// are in memory now, not the ones it saw before.
 pub fn run_prelude(ax: &mut Axecutor, c: &NCase, images: &[(ArenaKind, Vec<u8>)]) {
     if c.pre.is_empty() {
         return;
     }
-    for (at, _) in prelude_slots(&c.pre) {
+    let dbg = std::env::var("AXVERIF_DEBUG").is_ok();
+    let code_img = &images.iter().find(|(k, _)| *k == ArenaKind::Code).unwrap().1;
+    let (cb, cl) = (crate::native::CODE_BASE, crate::native::CODE_LEN as u64);
+    for (ch, at, _) in prelude_slots(c) {
         let _ = ax.reg_write_64(SR::RSP, crate::native::STK_BASE + 0x800);
+        if ch == 'x' {
+            if c.rip < cb || c.rip >= cb + cl {
+                continue;
+            }
+            // the decoy is `jmp $`: RIP stays where it is (a NOP in the arena's last byte would end the run)
+            let n = 2usize;
+            if cb + cl - c.rip < 2 {
+                continue;
+            }
+            let off = (c.rip - cb) as usize;
+            let _ = ax.mem_prot(cb, 7);
+            let _ = ax.mem_write_bytes(c.rip, &[0xeb, 0xfe]);
+            let _ = ax.reg_write_64(SR::RIP, c.rip);
+            let r = crate::util::block_on(ax.step());
+            if dbg {
+                eprintln!("prelude x at {:#x}: {:?}", c.rip, r.map_err(|e| e.to_string().chars().take(200).collect::<String>()));
+            }
+            let _ = ax.mem_write_bytes(c.rip, &code_img[off..off + n]);
+            let _ = ax.mem_prot(cb, 5);
+            continue;
+        }
+        if ch == 'r' {
+            // a harmless return address in both candidate slots (the case's own stack contents may
+            // aim at the end of the code, where a run finishes); the arena is restored below
+            for k in 0..2 {
+                let _ = ax.mem_write_64(crate::native::STK_BASE + 0x800 + 8 * k, at);
+            }
+        }
         let _ = ax.reg_write_64(SR::RIP, at);
         let r = crate::util::block_on(ax.step());
-        if std::env::var("AXVERIF_DEBUG").is_ok() {
-            eprintln!("prelude at {:#x}: {:?}", at, r.map_err(|e| e.to_string().chars().take(200).collect::<String>()));
+        if dbg {
+            eprintln!("prelude {} at {:#x}: {:?}", ch, at, r.map_err(|e| e.to_string().chars().take(200).collect::<String>()));
         }
     }
     for (k, img) in images {
